@@ -45,7 +45,7 @@ Init ==
     /\ sopts \in [Cols -> HOpts]
     /\ src = [c \in Cols |-> [k \in Keys |-> Absent]]
     /\ phase = "build"
-    /\ dopts = sopts /\ params = [overwrite |-> FALSE, force |-> {}, grow |-> FALSE]
+    /\ dopts = sopts /\ params = [overwrite |-> FALSE, force |-> {}, grow |-> FALSE, pending |-> FALSE]
     /\ dst = src /\ srcAfter = src
     /\ nops = 0 /\ trace = <<>>
 
@@ -63,24 +63,26 @@ Expected(dopt, s) ==
     [k \in Keys |-> IF Present(s[k]) THEN [v |-> s[k].v, rc |-> IF dopt.rc THEN s[k].rc ELSE 1]
                     ELSE Absent]
 
-Migrate(to, overwrite, force, grow) ==
+\* pending: the source was not closed cleanly, its last operations sit in synced write-ahead logs that the
+\* migration's own open of the source replays; the required outcome is the same
+Migrate(to, overwrite, force, grow, pending) ==
     /\ phase = "build"
     /\ to \in [Cols -> HOpts]
     /\ phase' = "migrated"
     /\ dopts' = to
-    /\ params' = [overwrite |-> overwrite, force |-> force, grow |-> grow]
+    /\ params' = [overwrite |-> overwrite, force |-> force, grow |-> grow, pending |-> pending]
     /\ LET selected == {c \in Cols : to[c] # sopts[c]} \cup force IN
        /\ dst' = [c \in Cols |-> IF c \in selected THEN Expected(to[c], src[c]) ELSE src[c]]
        \* the source is unchanged unless in-place overwrite was requested, in which case it
        \* becomes the migrated database
        /\ srcAfter' = IF overwrite THEN dst' ELSE src
     /\ trace' = Append(trace, [a |-> "Migrate", sopts |-> sopts, to |-> to, overwrite |-> overwrite,
-                               force |-> force, grow |-> grow, dst |-> dst', src_after |-> srcAfter'])
+                               force |-> force, grow |-> grow, pending |-> pending, dst |-> dst', src_after |-> srcAfter'])
     /\ UNCHANGED <<sopts, src, nops>>
 
 Next ==
     \/ \E c \in Cols, k \in Keys, t \in {"set", "del", "ref"} : Op(c, k, t)
-    \/ \E to \in [Cols -> HOpts], ow \in BOOLEAN, f \in SUBSET Cols, g \in BOOLEAN : Migrate(to, ow, f, g)
+    \/ \E to \in [Cols -> HOpts], ow \in BOOLEAN, f \in SUBSET Cols, g \in BOOLEAN, p \in BOOLEAN : Migrate(to, ow, f, g, p)
 
 Spec == Init /\ [][Next]_vars
 
@@ -101,7 +103,7 @@ ViewNoTrace == <<sopts, src, phase, dopts, params, dst, srcAfter, nops>>
 Rand(S) == RandomElement({x \in S : nops >= 0})
 GenNext ==
     \/ Op(Rand(Cols), Rand(Keys), Rand({"set", "set", "del", "ref"}))
-    \/ (nops >= 2 /\ Migrate([c \in Cols |-> Rand(HOpts)], Rand(BOOLEAN), Rand(SUBSET Cols), Rand({FALSE, FALSE, TRUE})))
+    \/ (nops >= 2 /\ Migrate([c \in Cols |-> Rand(HOpts)], Rand(BOOLEAN), Rand(SUBSET Cols), Rand({FALSE, FALSE, TRUE}), Rand(BOOLEAN)))
 GenInit == Init
 GenSpec == GenInit /\ [][GenNext]_vars
 EmitTrace == phase # "migrated" \/ PrintT("REPLAY " \o ToJson(trace))
